@@ -225,7 +225,9 @@ func (n *node) put(key string) (string, *proto.WriteResponse, error) {
 	}
 	ch := make(chan res, 1)
 	t := n.s.Go("client-write", func() {
-		r, err := n.srv.Write(context.Background(), &proto.WriteRequest{Shard: oxh.I64(shard), Puts: []*proto.PutRequest{{Key: key, Value: []byte(val)}}})
+		// every record declares a secondary-index entry: what the index callbacks write is part of the state the fold oracle compares
+		r, err := n.srv.Write(context.Background(), &proto.WriteRequest{Shard: oxh.I64(shard), Puts: []*proto.PutRequest{{Key: key, Value: []byte(val),
+			SecondaryIndexes: []*proto.SecondaryIndex{{IndexName: "byval", SecondaryKey: val}}}}})
 		vsched.Send(ch)(res{r, err})
 	})
 	t.Group = n.grp
@@ -370,7 +372,7 @@ func (n *node) step(op int) bool {
 		n.nextID++
 		key, val := fmt.Sprintf("k%d", n.nextID%2), fmt.Sprintf("v%d", n.nextID)
 		lev := &proto.LogEntryValue{Value: &proto.LogEntryValue_Requests{Requests: &proto.WriteRequests{Writes: []*proto.WriteRequest{
-			{Shard: oxh.I64(shard), Puts: []*proto.PutRequest{{Key: key, Value: []byte(val)}}}}}}}
+			{Shard: oxh.I64(shard), Puts: []*proto.PutRequest{{Key: key, Value: []byte(val), SecondaryIndexes: []*proto.SecondaryIndex{{IndexName: "byval", SecondaryKey: val}}}}}}}}}
 		b, _ := lev.MarshalVT()
 		before := len(*n.acks)
 		// the leader of this term advertises everything it sends as committed (the other follower is fast)
